@@ -20,6 +20,7 @@ import (
 	m "verif/internal/model"
 	"verif/internal/rt"
 	"verif/internal/stats"
+	"verif/internal/streamcase"
 	"verif/internal/value"
 )
 
@@ -32,6 +33,8 @@ type caseRec struct {
 	Result  value.V         `json:"result"`
 	Accept  map[string]bool `json:"accept"`
 	Message string          `json:"message"`
+	// Stream scripts the call when the method is a streaming endpoint
+	Stream *harness.StreamSpec `json:"stream,omitempty"`
 }
 
 func keep(d *m.Design) bool { return len(d.Schemes) > 0 }
@@ -113,8 +116,16 @@ func checkMethod(t *testing.T, b *rt.Built, s *m.Service, meth *m.Method) bool {
 	ok := t.Run(label, func(t *testing.T) {
 		rapid.Check(t, func(rt_ *rapid.T) {
 			c := &caseRec{Service: s.Name, Method: meth.Name, Accept: map[string]bool{}}
-			c.Payload = gen.PayloadGen(d, meth).Draw(rt_, "payload")
-			c.Result = gen.ResultGen(d, meth).Draw(rt_, "result")
+			if meth.Streaming != "" {
+				// a streaming endpoint: the requirement is checked before the upgrade;
+				// when it is satisfied a short scripted stream runs
+				sc := streamcase.Gen(d, s, meth, "", 3).Draw(rt_, "stream")
+				c.Payload, c.Result, c.Stream = sc.Payload, sc.Final, &sc.Spec
+				stats.Class("streaming-endpoint:" + meth.Streaming)
+			} else {
+				c.Payload = gen.PayloadGen(d, meth).Draw(rt_, "payload")
+				c.Result = gen.ResultGen(d, meth).Draw(rt_, "result")
+			}
 			for _, n := range names {
 				c.Accept[n] = rapid.Bool().Draw(rt_, "accept:"+n)
 			}
@@ -210,6 +221,10 @@ func runCase(b *rt.Built, s *m.Service, meth *m.Method, c *caseRec) string {
 	hc := &harness.Case{Op: "call", Svc: s.Name, Method: meth.Name, HasPayload: meth.Payload != nil, Payload: c.Payload}
 	hc.Stub = harness.StubSpec{HasResult: meth.Result != nil, Result: c.Result, View: "default"}
 	hc.Auth = &harness.AuthSpec{Accept: c.Accept}
+	hc.Stream = c.Stream
+	if meth.Streaming != "" {
+		hc.Stub.HasResult = meth.Streaming == "payload" && meth.Result != nil
+	}
 	obs, err := b.H.Do(hc)
 	if err != nil {
 		return "INCONCLUSIVE harness: " + err.Error()
